@@ -157,6 +157,8 @@ type fnCfg struct {
 	fuel        []string // fuel expression per loop (in source order), over Lean variable names
 	pure        bool     // emit a non-monadic definition (single return expression, nothing can panic)
 	ifaces      map[string]map[string]cbCfg // interface-typed parameters: method name -> callback kind
+	idioms      []idiom  // recognised statement templates with their Lean emission
+	nonNilRecv  bool     // `recv == nil` is False (the model is about non-nil receivers)
 	extra       string   // extra leading binders shared by the file (e.g. the re-allocation oracle)
 	extraArgs   string   // the corresponding arguments at call sites
 	rec         bool     // the function calls itself: it takes a fuel argument shared with its loops (mutual structural recursion)
@@ -291,4 +293,10 @@ func (f *fnCfg) needsState() bool {
 		}
 	}
 	return false
+}
+
+// idiom: a statement recognised by template (holes HE_/HI_ as in match.go) and emitted as given.
+type idiom struct {
+	tmpl string
+	emit func(c *fctx, b *bindings, n int) (string, error)
 }
